@@ -74,7 +74,7 @@ def ratPow (a : Rat) : Nat → Rat
 def arithOk (op : String) (q : Points Rat) : Bool :=
   match op with
   | "div" => q.data.all (·.all (· ≠ 0))
-  | "pow" => q.data.all (·.all fun e => e.den = 1 && 0 ≤ e.num)
+  | "pow" => q.data.all (·.all fun e => e.den = 1 && 0 ≤ e.num && e.num ≤ 64)
   | _ => true
 
 def arithFn (op : String) : Option (Rat → Rat → Rat) :=
@@ -126,10 +126,11 @@ def step (line : String) : String :=
       match arithFn o with
       | none => throw s!"arith:{o}"
       | some f =>
-        let r := p.arith f q
-        match r with
-        | .ok _ => if arithOk o q then return showE showPoints r else return "unmodelled"
-        | _ => return showE showPoints r
+        -- decide acceptance without evaluating the cells (a huge exponent must not be evaluated)
+        let chk := p.arith (fun a _ => a) q
+        match chk with
+        | .ok _ => if arithOk o q then return showE showPoints (p.arith f q) else return "unmodelled"
+        | _ => return showE showPoints chk
     | "pts.cat" => do let p ← pPoints; let q ← pPoints; return showE showPoints (p.cat q)
     | "pts.join" => do let p ← pPoints; let q ← pPoints; return showE showPoints (p.join q)
     | "pts.joined" => do let ps ← many pPoints; return showE showPoints (Points.joined ps)
